@@ -128,6 +128,10 @@ pub fn run(parts: &[String]) -> String {
             #[cfg(feature = "ark")]
             "aeq" => { let b = pop_a(&mut st); let a = pop_a(&mut st); return format!("{}", a == b) }
             #[cfg(feature = "ark")]
+            "hasheq" => { let b = pop_e(&mut st); let a = pop_e(&mut st); return format!("{}", hash64(&a) == hash64(&b)) }
+            #[cfg(feature = "ark")]
+            "ahasheq" => { let b = pop_a(&mut st); let a = pop_a(&mut st); return format!("{}", hash64(&a) == hash64(&b)) }
+            #[cfg(feature = "ark")]
             "hash" => { let a = pop_e(&mut st); return format!("{}", hash64(&a)) }
             #[cfg(feature = "ark")]
             "ahash" => { let a = pop_a(&mut st); return format!("{}", hash64(&a)) }
